@@ -228,6 +228,30 @@ fn fam_random(ctx: &CaseCtx, cov: &mut Cov) -> CaseOut {
     out
 }
 
+/// the smallest streams there are: no chunk at all (`00`), one uncompressed chunk of one byte,
+/// one LZMA chunk of one or two symbols, and pairs of those
+fn fam_tiny(ctx: &CaseCtx, cov: &mut Cov) -> CaseOut {
+    let mut out = CaseOut::default();
+    let mut rng = ctx.rng();
+    let i = ctx.index as usize;
+    let b = (i as u8).wrapping_mul(41);
+    let props = crate::refmodel::lzma::Props::new((i % 5) as u32, ((i / 5) % 5).min(4 - (i % 5).min(4)) as u32, ((i / 25) % 5) as u32);
+    let raw1 = Chunk::Raw { reset_dict: true, data: vec![b] };
+    let lz = |prog: Vec<Sym>| Chunk::Lzma { reset: 3, props, prog };
+    let chunks: Vec<Chunk> = match i % 7 {
+        0 => vec![],
+        1 => vec![raw1],
+        2 => vec![lz(vec![Sym::Lit(b)])],
+        3 => vec![lz(vec![Sym::Lit(b), Sym::ShortRep])],
+        4 => vec![raw1, Chunk::Raw { reset_dict: false, data: vec![b ^ 1] }],
+        5 => vec![raw1, Chunk::Lzma { reset: 2, props, prog: vec![Sym::ShortRep] }],
+        _ => vec![lz(vec![Sym::Lit(b)]), Chunk::Raw { reset_dict: (i / 7) % 2 == 0, data: vec![b ^ 2] }],
+    };
+    cov.name(&format!("tiny.shape{}", i % 7), 1);
+    run_chunks("tiny", &chunks, &mut out, cov, ctx, &mut rng);
+    out
+}
+
 fn fam_extremes(ctx: &CaseCtx, cov: &mut Cov) -> CaseOut {
     let mut out = CaseOut::default();
     let mut rng = ctx.rng();
@@ -516,6 +540,7 @@ pub fn monitor(tier: Tier) -> Monitor {
         ],
         families: vec![
             Family { name: "sizes", count: tier.pick(36, 360), priority: true, enumerated: false, run: fam_sizes },
+            Family { name: "tiny", count: tier.pick(7 * 60, 7 * 600), priority: true, enumerated: false, run: fam_tiny },
             Family { name: "random", count: tier.pick(12_000, 600_000), priority: false, enumerated: false, run: fam_random },
             Family { name: "props", count: tier.pick(4_000, 150_000), priority: false, enumerated: false, run: fam_props },
             Family { name: "extremes", count: tier.pick(300, 8_000), priority: false, enumerated: false, run: fam_extremes },
